@@ -303,6 +303,14 @@ func (s *Session) run(ctx context.Context, calldepth int, funcv *bigslice.FuncVa
 		// Freeze the environment to ensure that compilations are consistent
 		// (e.g. across workers).
 		inv.Env.Freeze()
+		// The compiled tasks hold their own copies of the invocation, and
+		// those are what executors send to workers: freeze them, too.
+		_ = iterTasks(tasks, func(task *Task) error {
+			if task.Invocation.Index == inv.Index {
+				task.Invocation.Env.Freeze()
+			}
+			return nil
+		})
 		// TODO(marius): give a way to provide names for these groups
 		if s.status != nil {
 			// Make the slice status group come before the more granular task
